@@ -34,6 +34,8 @@ class EnumOrdinalEncoder(QuasiLazyEncoder):
 
     def _do_get_all_design_vectors(self, existence: NodeExistence, matrix: np.ndarray, design_vars: List[DiscreteDV]) \
             -> np.ndarray:
+        if len(design_vars) == 0:  # At most one matrix: no design variable is defined for this existence pattern
+            return np.zeros((matrix.shape[0], 0), dtype=int)
         design_vectors = np.array([np.arange(matrix.shape[0])]).T
         return design_vectors
 
